@@ -81,11 +81,12 @@ func (m *Map[K, V]) FromJSON(data []byte) error {
 	}
 
 	index := make(map[K]int)
+	if err := keyPositions(data, index); err != nil {
+		return err
+	}
 	var keys []K
 	for key := range elements {
 		keys = append(keys, key)
-		esc, _ := json.Marshal(key)
-		index[key] = bytes.Index(data, esc)
 	}
 
 	byIndex := func(key1, key2 K) int {
@@ -100,6 +101,34 @@ func (m *Map[K, V]) FromJSON(data []byte) error {
 		m.Put(key, elements[key])
 	}
 
+	return nil
+}
+
+// keyPositions records for every key of the JSON object in data the position at
+// which it (last) appears in the text, read from the token stream.
+func keyPositions[K comparable](data []byte, index map[K]int) error {
+	decoder := json.NewDecoder(bytes.NewReader(data))
+	if token, err := decoder.Token(); err != nil || token != json.Delim('{') {
+		return err // null: no keys
+	}
+	for position := 0; decoder.More(); position++ {
+		token, err := decoder.Token()
+		if err != nil {
+			return err
+		}
+		name, _ := json.Marshal(token)
+		var key map[K]json.RawMessage
+		if err := json.Unmarshal([]byte("{"+string(name)+":null}"), &key); err != nil {
+			return err
+		}
+		for k := range key {
+			index[k] = position
+		}
+		var value json.RawMessage
+		if err := decoder.Decode(&value); err != nil {
+			return err
+		}
+	}
 	return nil
 }
 
